@@ -324,6 +324,10 @@ func checkC05(c *Ctx) {
 	}
 
 	c05Consumers(c)
+	r.Rule("R05i", "scenario messages: the keys the emitted encoder writes are the keys of the documented mapping", 4)
+	crossScenarioKeys(c, "R05i", "go")
+	r.Rule("R05h", "codec collectors visit nested declarations unconditionally", 14)
+	collectorRecursion(c, "R05h")
 }
 
 // c05Consumers: R05g. Annotations are identified by the extension they are stored in
@@ -433,3 +437,73 @@ func c05Consumers(c *Ctx) {
 }
 
 func init() { props["C05"] = checkC05 }
+
+// collectorRecursion: every codec collector visits nested declarations
+// unconditionally — the self-call on <elem>.Messages is a top-level statement of the
+// loop body and no continue/break/return can precede it in the body.
+func collectorRecursion(c *Ctx, rule string) {
+	r := c.R
+	for _, pkg := range []string{pkgHTTP, pkgClient} {
+		for _, f := range c05Features {
+			name := f.Collector
+			if name == "collectEnumsWithCustomValues" {
+				name = "collectEnumsFromMessage"
+			}
+			fn := c.P.Func(pkg, name)
+			if fn == nil {
+				if pkg == pkgHTTP {
+					r.Unres(rule, pkgShort(pkg)+" "+name, "", "collector not found")
+				}
+				continue
+			}
+			decl := c.P.Decls[fn]
+			info := c.P.DeclPkg[fn].TypesInfo
+			ok, why := false, "no unconditional self-call on the nested declarations"
+			ast.Inspect(decl.Body, func(n ast.Node) bool {
+				rs, isRange := n.(*ast.RangeStmt)
+				if !isRange {
+					return true
+				}
+				elem, _ := rs.Value.(*ast.Ident)
+				for i, st := range rs.Body.List {
+					es, isExpr := st.(*ast.ExprStmt)
+					if !isExpr {
+						continue
+					}
+					call, isCall := es.X.(*ast.CallExpr)
+					if !isCall || Callee(info, call) != fn || len(call.Args) == 0 {
+						continue
+					}
+					arg := types.ExprString(call.Args[0])
+					nested := (elem != nil && arg == elem.Name+".Messages") || strings.HasSuffix(arg, ".Messages") || (elem != nil && arg == elem.Name)
+					if !nested {
+						continue
+					}
+					// nothing before it in the body may leave the iteration
+					leaves := ""
+					for _, prev := range rs.Body.List[:i] {
+						ast.Inspect(prev, func(m ast.Node) bool {
+							switch b := m.(type) {
+							case *ast.BranchStmt:
+								leaves = b.Tok.String()
+							case *ast.ReturnStmt:
+								leaves = "return"
+							case *ast.FuncLit:
+								return false
+							}
+							return true
+						})
+					}
+					if leaves == "" {
+						ok = true
+					} else {
+						why = "a `" + leaves + "` can be taken before the self-call on the nested declarations"
+					}
+				}
+				return true
+			})
+			r.Check(ok, rule, pkgShort(pkg)+" "+name+" visits nested declarations unconditionally", c.P.Pos(decl.Pos()),
+				fmt.Sprintf("%s.%s: %s: a message declared inside another message gets no %s codec unless its parent satisfies some condition, so it is written in plain protojson form and read back differently from the documented form", pkgShort(pkg), name, why, f.Name))
+		}
+	}
+}
